@@ -25,7 +25,47 @@ COVERED = ['KeyError', 'AttributeError', 'IndexError', 'ValueError', 'TypeError'
            'UnicodeError']
 
 
-def _member(sym: str, i: int, rng: random.Random = None) -> Dict[str, Any]:
+def _passes(inp) -> List[Dict[str, Any]]:
+    """WAVE 4: the calls of the batch reader made in one process, in order: {'ignore', 'batch'} with batch 0 = the
+    case's members, 1 = `other` (a DIFFERENT batch under the same names); default: one call"""
+    ps = inp.get('passes') or [{'ignore': inp['ignore']}]
+    return [{'ignore': bool(p['ignore']), 'batch': int(p.get('batch', 0))} for p in ps]
+
+
+def _pass_suffix(passes, n: int) -> str:
+    """class of history of pass n: '' first call of the process, ':repeat' the same batch was read before,
+    ':after-other' only the other batch was read before"""
+    before = [p['batch'] for p in passes[:n]]
+    if not before:
+        return ''
+    return ':repeat' if passes[n]['batch'] in before else ':after-other'
+
+
+def _other_batch(members) -> List[Dict[str, Any]]:
+    """a different batch under the SAME names: every good member replaced by a faulty one and vice versa"""
+    out = []
+    for n, m in enumerate(members):
+        if m['what'] == 'good':
+            out.append(_member(['trunc', 'badnum', 'empty', 'notpage'][n % 4], 500 + n, name=m['name']))
+        elif m['what'] in C.FAULT_KINDS:
+            out.append(_member('good', 500 + n, name=m['name']))
+        else:
+            out.append(dict(m))
+    return out
+
+
+def _ext_for(sym: str) -> str:
+    return {'nonxml': 'txt', 'nonxml-empty': 'dat', 'wellformed-other-name': 'svg'}.get(sym, 'xml')
+
+
+def _member(sym: str, i: int, rng: random.Random = None, name: str = None) -> Dict[str, Any]:
+    m = _member0(sym, i, rng)
+    if name is not None:        # WAVE 4: explicit full path (same base name in different directories)
+        m['name'] = name
+    return m
+
+
+def _member0(sym: str, i: int, rng: random.Random = None) -> Dict[str, Any]:
     r = random.Random(i * 7919 + len(sym)) if rng is None else rng
     spec = C.rand_doc_spec(r, f'scan{i}')
     d = r.choice(['', '', 'p/', 'p/q/', 'ü/'])
@@ -57,7 +97,11 @@ class C13(Check):
                   'FileNotFoundError is NOT covered and provably escapes (C13_uncovered_class_escapes); strict mode '
                   'yields the goods before the first bad .xml member and raises its exception; non-XML members '
                   '(name without .xml, ExpatError) are skipped in both modes.  MEASURED per run, not proved: which '
-                  'exception class each fault kind raises in the single-file parser')
+                  'exception class each fault kind raises in the single-file parser.  Histories (input field `passes`): '
+                  'the model is a pure function of the member sequence, so the SAME model answer is demanded of every call '
+                  'when the reader runs several times in one process (same batch twice, ignore_errors flipped, after a '
+                  'different batch under the same names); members are identified by their full path, base names may repeat '
+                  'across directories (the model uses the name for the `.xml` suffix test only)')
     assumptions = ['the single-file parser raises, for each fault kind of the statement, a class measured at run time; the '
                    'theorems cover every assignment of covered classes to members',
                    'CPython exception hierarchy for the classes concerned (Model/C13.lean `parent`)',
@@ -72,10 +116,20 @@ class C13(Check):
         return translate.generated_files()
 
     # ---------------------------------------------------------------- generation
-    def _case(self, syms: List[str], route: str, ignore: bool, i: int, tags, nested=False, rng=None) -> Case:
-        ext = C.ACCEPTED_EXTS[i % len(C.ACCEPTED_EXTS)]
-        members = [_member(s, n, rng) for n, s in enumerate(syms)]
+    def _case(self, syms: List[str], route: str, ignore: bool, i: int, tags, nested=False, rng=None, ext=None,
+              names=None, passes=None, other=None) -> Case:
+        ext = ext or C.ACCEPTED_EXTS[i % len(C.ACCEPTED_EXTS)]
+        members = [_member(s, n, rng, names[n] if names else None) for n, s in enumerate(syms)]
+        seen = set()
+        for n, m in enumerate(members):     # full paths must be distinct (zip opens members by name)
+            if m['name'] in seen:
+                m['name'] = f'dup{n}/' + m['name']
+            seen.add(m['name'])
         inp = {'route': route, 'ignore': ignore, 'members': members}
+        if passes is not None:
+            inp['passes'] = passes
+        if other is not None:
+            inp['other'] = other
         if route == 'archive':
             inp['ext'] = ext
             inp['nested'] = bool(nested) and ext != '.7z'
@@ -136,9 +190,108 @@ class C13(Check):
             n += 1
             out.append(self._case(syms, rng.choice(['files', 'archive', 'archive']), rng.random() < 0.6, n, ['random'],
                                   nested=rng.random() < 0.3, rng=rng))
+        out.extend(self._wave4_cases(rng, quick, n))
+        return out
+
+    # WAVE 4 ------------------------------------------------------------------------------------------
+    #: where a batch lives: every accepted archive extension flat and (7z apart: beyond C12's quantifier) nested in
+    #: another archive, and the loose-file route
+    VARIANTS = [('archive', e, nst) for e in C.ACCEPTED_EXTS for nst in (False, True) if not (nst and e == '.7z')] + \
+               [('files', None, False)]
+
+    @staticmethod
+    def _histories(ig: bool, members) -> List[Any]:
+        """(tag, passes, other batch): the reader called twice, with the option flipped, after another batch under
+        the same names was read (skipping its faulty members / aborted by one)"""
+        return [('twice', [{'ignore': ig}, {'ignore': ig}], None),
+                ('flip', [{'ignore': ig}, {'ignore': not ig}], None),
+                ('after-other-ignored', [{'ignore': True, 'batch': 1}, {'ignore': ig}], _other_batch(members)),
+                ('after-other-strict', [{'ignore': False, 'batch': 1}, {'ignore': ig}], _other_batch(members))]
+
+    def _wave4_cases(self, rng: random.Random, quick: bool, n: int) -> List[Case]:
+        out: List[Case] = []
+        hcount = [0]
+
+        def family(syms, names, tag):
+            """one member layout in every place, both modes; plus its 2-pass variants (quick: one history per case,
+            rotating; thorough: all)"""
+            nonlocal n
+            hcount[0] += 1      # the rotation shifts by one per family: over the families every place meets every history
+            for route, ext, nst in self.VARIANTS:
+                for ig in (True, False):
+                    n += 1
+                    kw = dict(nested=nst, ext=ext, names=names)
+                    base = self._case(syms, route, ig, n, ['enum', tag], **kw)
+                    out.append(base)
+                    hs = self._histories(ig, base.input['members'])
+                    if quick:
+                        hcount[0] += 1
+                        hs = [hs[hcount[0] % len(hs)]]
+                    for htag, passes, other in hs:
+                        out.append(self._case(syms, route, ig, n, ['enum', tag, 'history', htag], passes=passes,
+                                              other=other, **kw))
+        # (D) every fault kind x every place x both modes, explicitly
+        for sym in SYMBOLS[1:]:
+            family(['good', sym, 'good'], None, 'fault-grid')
+            family([sym, 'good'], None, 'fault-grid')
+        # (C) the same base name in different directories
+        x = _ext_for
+        pick = rng.randrange(len(C.FAULT_KINDS))
+        for k, f in enumerate(C.FAULT_KINDS):
+            family([f, 'good'], ['inv1/0002.xml', 'inv2/0002.xml'], 'samebase')
+            family(['good', f], ['inv1/0002.xml', 'inv2/0002.xml'], 'samebase')
+            if quick and k not in (pick, (pick + 3) % len(C.FAULT_KINDS)):
+                continue
+            family([f, 'good', 'good', 'good'], ['inv1/0002.xml', 'inv2/0001.xml', 'inv2/0002.xml', 'inv3/0002.xml'], 'samebase')
+            family(['nonxml', 'good', 'nonxml-empty', f, 'good'],
+                   ['inv1/notes.txt', 'inv1/0002.xml', 'inv2/notes.txt', 'inv2/0002.xml', '0002.xml'], 'samebase')
+        family(['good', 'good'], ['inv1/0002.xml', 'inv2/0002.xml'], 'samebase')
+        family(['good', 'good', 'good'], ['inv1/0002.xml', '0002.xml', 'inv1/sub/0002.xml'], 'samebase')
+        # random: base names drawn from a small pool (distinct full paths), several passes
+        for _ in range(120 if quick else 1500):
+            ln = rng.choice([2, 3, 4, 5, 6, 8, 12])
+            p_good = rng.choice([0.3, 0.6, 0.85])
+            syms = [('good' if rng.random() < p_good else rng.choice(SYMBOLS[1:])) for _ in range(ln)]
+            names, used = [], set()
+            for i, sy in enumerate(syms):
+                nm = None
+                if rng.random() < 0.7:
+                    nm = rng.choice(['inv1/', 'inv2/', 'inv2/sub/', '']) + rng.choice(['0001', '0002', 'page']) + '.' + x(sy)
+                if nm is None or nm in used:
+                    nm = f'{rng.choice(["", "inv1/", "p/q/"])}m{i}.{x(sy)}'
+                used.add(nm)
+                names.append(nm)
+            route, ext, nst = rng.choice(self.VARIANTS)
+            if ext == '.7z' and quick and ln > 6:
+                ext = '.zip'
+            ig = rng.random() < 0.6
+            n += 1
+            c = self._case(syms, route, ig, n, ['random', 'samebase'], nested=nst, rng=rng, ext=ext, names=names)
+            if rng.random() < 0.5:
+                ps = [{'ignore': rng.random() < 0.6, 'batch': int(rng.random() < 0.3)} for _ in range(rng.choice([1, 2, 2, 3]))]
+                ps.append({'ignore': ig, 'batch': 0})
+                c.input['passes'] = ps
+                if any(p['batch'] for p in ps):
+                    c.input['other'] = _other_batch(c.input['members'])
+                c.tags.append('history')
+            out.append(c)
         return out
 
     # ---------------------------------------------------------------- implementation
+    _7z_cache: Dict[str, bytes] = {}
+
+    def _container(self, kind: str, tree, scratch: str) -> bytes:
+        """the archive bytes of a member tree; py7zr is slow to write (~0.1 s): the single-pass case and its
+        history variants hold the same members, the bytes are built once"""
+        if kind != 'sevenz':
+            return C.container_bytes(kind, tree, scratch)
+        key = C.sha(json.dumps(tree, sort_keys=True).encode('utf-8'))
+        if key not in self._7z_cache:
+            if len(self._7z_cache) > 200:
+                self._7z_cache.clear()
+            self._7z_cache[key] = C.container_bytes(kind, tree, scratch)
+        return self._7z_cache[key]
+
     def impl(self, case: Case) -> Any:
         if case.kind == 'subclass':
             import builtins
@@ -152,42 +305,58 @@ class C13(Check):
         inp = case.input
         scratch = tempfile.mkdtemp(prefix='verif-c13-')
         try:
-            ms = inp['members']
-            alone = []
-            if inp['route'] == 'files':
-                root = os.path.join(scratch, 'files')
-                paths = []
-                for m in ms:
-                    p = os.path.join(root, m['name'])
-                    os.makedirs(os.path.dirname(p), exist_ok=True)
-                    with open(p, 'wb') as fh:
-                        fh.write(bytes.fromhex(m['d']))
-                    paths.append(p)
-                    alone.append(call(lambda: _digest(_scan_view(_quiet(P.parse_pagexml_file, p)))))
-                r = _drain(lambda: P.parse_pagexml_files(paths, ignore_errors=inp['ignore']))
-                yielded = [{'key': os.path.relpath(s.metadata['filename'], root), 'json': _digest(_scan_view(s))}
-                           for s in r['items']]
-            else:
-                tree = [{'t': 'f', 'p': m['name'], 'd': m['d']} for m in ms]
-                for m in ms:
-                    raw = bytes.fromhex(m['d'])
-                    base = m['name'].rsplit('/', 1)[-1]
-                    alone.append(call(lambda: _digest(_scan_view(_quiet(P.parse_pagexml_file, base, pagexml_data=raw)))))
-                kind = C.KIND_OF_EXT[inp['ext']]
-                if inp.get('nested'):
-                    tree = [{'t': 'n', 'p': 'wrap/inner.zip' if kind != 'zip' else 'wrap/inner.tar',
-                             'k': 'zip' if kind != 'zip' else 'tar', 'm': tree}]
-                path = os.path.join(scratch, 'batch' + inp['ext'])
-                with open(path, 'wb') as fh:
-                    fh.write(C.container_bytes(kind, tree, scratch))
-                r = _drain(lambda: P.parse_pagexml_files_from_archive(path, ignore_errors=inp['ignore']))
-                yielded = [{'key': s.metadata['pagefile_info']['archived_filepath'], 'json': _digest(_scan_view(s))}
-                           for s in r['items']]
+            passes = _passes(inp)
+            batches = [inp['members'], inp.get('other') or []]
+            used = sorted({p['batch'] for p in passes} | {0})
+            alone: Dict[int, List[Any]] = {0: [], 1: []}
+            where: Dict[int, Any] = {}
+            for b in used:      # every batch is on disk before the first call
+                ms = batches[b]
+                if inp['route'] == 'files':
+                    root = os.path.join(scratch, 'files' if b == 0 else 'files-other')
+                    paths = []
+                    for m in ms:
+                        p = os.path.join(root, m['name'])
+                        os.makedirs(os.path.dirname(p), exist_ok=True)
+                        with open(p, 'wb') as fh:
+                            fh.write(bytes.fromhex(m['d']))
+                        paths.append(p)
+                        alone[b].append(call(lambda: _digest(_scan_view(_quiet(P.parse_pagexml_file, p)))))
+                    where[b] = (root, paths)
+                else:
+                    tree = [{'t': 'f', 'p': m['name'], 'd': m['d']} for m in ms]
+                    for m in ms:
+                        raw = bytes.fromhex(m['d'])
+                        base = m['name'].rsplit('/', 1)[-1]
+                        alone[b].append(call(lambda: _digest(_scan_view(_quiet(P.parse_pagexml_file, base, pagexml_data=raw)))))
+                    kind = C.KIND_OF_EXT[inp['ext']]
+                    if inp.get('nested'):
+                        tree = [{'t': 'n', 'p': 'wrap/inner.zip' if kind != 'zip' else 'wrap/inner.tar',
+                                 'k': 'zip' if kind != 'zip' else 'tar', 'm': tree}]
+                    path = os.path.join(scratch, ('batch' if b == 0 else 'other') + inp['ext'])
+                    with open(path, 'wb') as fh:
+                        fh.write(self._container(kind, tree, scratch))
+                    where[b] = (None, path)
+            pouts = []
+            for ps in passes:   # the calls, in order, in this process
+                b = ps['batch']
+                if inp['route'] == 'files':
+                    root, paths = where[b]
+                    arg = list(paths)
+                    r = _drain(lambda: P.parse_pagexml_files(arg, ignore_errors=ps['ignore']))
+                    po = {'yielded': [{'key': os.path.relpath(s.metadata['filename'], root), 'json': _digest(_scan_view(s))}
+                                      for s in r['items']], 'exn': r['exn'], 'arg_unchanged': arg == paths}
+                else:
+                    path = where[b][1]
+                    r = _drain(lambda: P.parse_pagexml_files_from_archive(path, ignore_errors=ps['ignore']))
+                    po = {'yielded': [{'key': (s.metadata.get('pagefile_info') or {}).get('archived_filepath'),
+                                       'json': _digest(_scan_view(s))} for s in r['items']], 'exn': r['exn']}
+                pouts.append(po)
             self._measured[id(case)] = alone
-            for a in alone:     # evidence: a measured class the theorems do not cover (informational)
+            for a in alone[0] + alone[1]:     # evidence: a measured class the theorems do not cover (informational)
                 if 'err' in a and a['err'] not in COVERED and f'uncovered-class:{a["err"]}' not in case.tags:
                     case.tags.append(f'uncovered-class:{a["err"]}')
-            return {'alone': alone, 'yielded': yielded, 'exn': r['exn']}
+            return {'alone': alone[0], 'alone_other': alone[1], 'passes': pouts}
         finally:
             shutil.rmtree(scratch, ignore_errors=True)
 
@@ -201,16 +370,21 @@ class C13(Check):
         # requests() (core.run_check), its measurement of every member parsed alone is cached per case
         alone = self._measured.get(id(case))
         if alone is None:
-            alone = self.impl(case)['alone']
-        return [self._batch_request(case, alone)]
+            o = self.impl(case)
+            alone = {0: o['alone'], 1: o['alone_other']}
+        # the model is pure: one request per call, the same answer must hold however often the reader ran before
+        return [self._batch_request(case, alone[ps['batch']], ps) for ps in _passes(case.input)]
 
-    def _batch_request(self, case: Case, alone) -> Dict[str, Any]:
+    def _batch_request(self, case: Case, alone, ps=None) -> Dict[str, Any]:
         inp = case.input
+        ps = ps or {'ignore': inp['ignore'], 'batch': 0}
         members = []
-        for i, (m, a) in enumerate(zip(inp['members'], alone)):
+        for i, (m, a) in enumerate(zip(inp['members'] if ps['batch'] == 0 else inp['other'], alone)):
+            # the archive route hands the BASE name to the parser; the model uses the name for the `.xml` suffix
+            # test only (Model/C13.lean `nameLacks`), members are identified by position (`id`)
             name = m['name'].rsplit('/', 1)[-1] if inp['route'] == 'archive' else m['name']
             members.append({'name': name, 'id': i} if 'ok' in a else {'name': name, 'fault': a['err']})
-        return {'p': 'C13', 'op': 'batch', 'args': {'route': inp['route'], 'ignore': inp['ignore'], 'members': members}}
+        return {'p': 'C13', 'op': 'batch', 'args': {'route': inp['route'], 'ignore': ps['ignore'], 'members': members}}
 
     def compare(self, case, impl_out, model_out):
         if case.kind == 'subclass':
@@ -218,45 +392,69 @@ class C13(Check):
             want = [m['ok'] for m in model_out]
             return None if got == want else f'issubclass: impl={impl_out} model={want}'
         inp = case.input
-        ans = model_out[0]['ok']
-        names = [m['name'] for m in inp['members']]
-        got = [names.index(y['key']) if y['key'] in names else -1 for y in impl_out['yielded']]
-        if got != ans['yielded'] or impl_out['exn'] != ans['exn']:
-            return f'impl yielded {got} exn={impl_out["exn"]}; model yielded {ans["yielded"]} exn={ans["exn"]} ' \
-                   f'(measured {[a.get("err", "good") for a in impl_out["alone"]]})'
+        for n, (ps, po, mo) in enumerate(zip(_passes(inp), impl_out['passes'], model_out)):
+            ans = mo['ok']
+            # members are identified by their FULL path (distinct within a batch; base names may repeat)
+            names = [m['name'] for m in (inp['members'] if ps['batch'] == 0 else inp['other'])]
+            got = [names.index(y['key']) if y['key'] in names else -1 for y in po['yielded']]
+            if got != ans['yielded'] or po['exn'] != ans['exn']:
+                al = impl_out['alone'] if ps['batch'] == 0 else impl_out['alone_other']
+                return f'call {n + 1} of {len(impl_out["passes"])} (ignore={ps["ignore"]}, batch {ps["batch"]}): impl yielded {got} ' \
+                       f'exn={po["exn"]}; model yielded {ans["yielded"]} exn={ans["exn"]} ' \
+                       f'(measured {[a.get("err", "good") for a in al]})'
         return None
 
     # ---------------------------------------------------------------- oracle
     def oracle(self, case: Case, out: Any) -> List[Finding]:
+        # an outcome of the real code that the judgement cannot even read is an outcome to report, never a crash (exit 2)
+        try:
+            return self._oracle(case, out)
+        except Exception as e:  # noqa
+            return [Finding('C13:answer-shape', f'the outcome of the real code cannot be judged: {type(e).__name__}: {e}', case, out)]
+
+    def _oracle(self, case: Case, out: Any) -> List[Finding]:
         fs: List[Finding] = []
         if case.kind != 'batch' or 'beyond' in case.tags:
             return fs
         inp = case.input
-        route = inp['route']
+        passes = _passes(inp)
+        for n, (ps, po) in enumerate(zip(passes, out['passes'])):
+            # the statement judged on EVERY call: "never lets an unreadable member abort the batch: every well-formed
+            # member is still yielded exactly once, in order …" holds for the second call as for the first
+            suffix = _pass_suffix(passes, n)
+            where = f'call {n + 1} of {len(passes)}: ' if len(passes) > 1 else ''
 
-        def bad(key, what):
-            fs.append(Finding(f'C13:{key}', what, case, out))
-        ms = inp['members']
-        alone = out['alone']
+            def bad(key, what, suffix=suffix, where=where):
+                fs.append(Finding(f'C13:{key}{suffix}', where + what, case, out))
+            ms = inp['members'] if ps['batch'] == 0 else inp['other']
+            alone = out['alone'] if ps['batch'] == 0 else out['alone_other']
+            if po.get('arg_unchanged') is False:
+                bad('argument-mutated:files', 'the list of files passed in was changed by the reader')
+            self._judge(bad, inp['route'], ms, alone, ps['ignore'], po['yielded'], po['exn'])
+        return fs
+
+    @staticmethod
+    def _judge(bad, route, ms, alone, ignore, yielded, exn) -> None:
+        """one call of a batch reader judged against the statement"""
         # generator sanity: a good document parses alone, a faulty one does not (else the case judges nothing)
         for m, a in zip(ms, alone):
             if (m['what'] == 'good') != ('ok' in a):
                 if m['what'] == 'good':
                     bad('good-member-rejected', f'{m["name"]}: well-formed document rejected when parsed alone: {a}')
-                return fs
+                return
         goods = [(m['name'], a['ok']) for m, a in zip(ms, alone) if m['what'] == 'good']
-        got = [(y['key'], y['json']) for y in out['yielded']]
-        if inp['ignore']:
-            if out['exn'] is not None:
+        got = [(y['key'], y['json']) for y in yielded]
+        if ignore:
+            if exn is not None:
                 # the member that ended the batch: between the last good member yielded and the next good one,
                 # the first faulty member whose own exception class is the one that escaped
                 gi = [i for i, m in enumerate(ms) if m['what'] == 'good']
                 n_y = len(got)
                 lo = gi[n_y - 1] + 1 if 0 < n_y <= len(gi) else 0
                 hi = gi[n_y] if n_y < len(gi) else len(ms)
-                cands = [ms[i]['what'] for i in range(lo, hi) if ms[i]['what'] != 'good' and alone[i].get('err') == out['exn']]
+                cands = [ms[i]['what'] for i in range(lo, hi) if ms[i]['what'] != 'good' and alone[i].get('err') == exn]
                 culprit = cands[0] if cands else '?'
-                bad(f'ignore-aborted:{route}:{culprit}', f'ignore_errors=True but {out["exn"]} escaped after {len(got)} scans')
+                bad(f'ignore-aborted:{route}:{culprit}', f'ignore_errors=True but {exn} escaped after {len(got)} scans')
             elif got != goods:
                 keys = [k for k, _ in got]
                 if keys == [k for k, _ in goods]:
@@ -272,21 +470,20 @@ class C13(Check):
                 return True
             first = next((i for i, m in enumerate(ms) if is_bad(m)), None)
             if first is None:
-                if out['exn'] is not None:
+                if exn is not None:
                     what = 'nonxml' if any(m['what'] == 'nonxml' for m in ms) else 'none'
-                    bad(f'strict-raised-without-bad-member:{route}:{what}', f'{out["exn"]} raised although no PageXML member is bad')
+                    bad(f'strict-raised-without-bad-member:{route}:{what}', f'{exn} raised although no PageXML member is bad')
                 elif got != goods:
                     bad(f'strict-members:{route}', f'yielded {[k for k, _ in got]}, expected {[k for k, _ in goods]}')
             else:
                 want = [(m['name'], a['ok']) for m, a in list(zip(ms, alone))[:first] if m['what'] == 'good']
-                if out['exn'] is None:
+                if exn is None:
                     bad(f'strict-silently-dropped:{route}:{ms[first]["what"]}',
                         f'bad member {ms[first]["name"]} ({ms[first]["what"]}) did not raise without ignore_errors')
                 elif got != want:
                     bad(f'strict-prefix:{route}', f'yielded {[k for k, _ in got]} before raising, expected {[k for k, _ in want]}')
-                elif out['exn'] != alone[first].get('err'):
-                    bad(f'strict-other-exception:{route}', f'raised {out["exn"]}, the first bad member alone raises {alone[first]}')
-        return fs
+                elif exn != alone[first].get('err'):
+                    bad(f'strict-other-exception:{route}', f'raised {exn}, the first bad member alone raises {alone[first]}')
 
     def nontrivial(self, case: Case) -> bool:
         if case.kind != 'batch':
@@ -297,17 +494,32 @@ class C13(Check):
     def shrink_candidates(self, case: Case):
         if case.kind != 'batch':
             return
-        ms = case.input['members']
+        inp = case.input
+        ms = inp['members']
+        ps = inp.get('passes')
+        if ps:      # fewer calls first; a history without the other batch
+            for i in range(len(ps)):
+                rest = ps[:i] + ps[i + 1:]
+                if rest:
+                    yield Case('batch', dict(inp, passes=rest), case.tags)
+            if not any(p.get('batch') for p in ps) and inp.get('other'):
+                yield Case('batch', {k: v for k, v in inp.items() if k != 'other'}, case.tags)
         for i in range(len(ms)):
-            yield Case('batch', dict(case.input, members=ms[:i] + ms[i + 1:]), case.tags)
-        if case.input.get('nested'):
-            yield Case('batch', dict(case.input, nested=False), case.tags)
-        if case.input.get('ext') not in (None, '.zip'):
-            yield Case('batch', dict(case.input, ext='.zip'), case.tags)
-        for i, m in enumerate(ms):
-            if '/' in m['name']:
-                yield Case('batch', dict(case.input, members=ms[:i] + [dict(m, name=m['name'].rsplit('/', 1)[-1])] + ms[i + 1:]),
-                           case.tags)
+            yield Case('batch', dict(inp, members=ms[:i] + ms[i + 1:]), case.tags)
+        oth = inp.get('other') or []
+        for i in range(len(oth)):
+            yield Case('batch', dict(inp, other=oth[:i] + oth[i + 1:]), case.tags)
+        if inp.get('nested'):
+            yield Case('batch', dict(inp, nested=False), case.tags)
+        if inp.get('ext') not in (None, '.zip'):
+            yield Case('batch', dict(inp, ext='.zip'), case.tags)
+        for which, lst in (('members', ms), ('other', oth)):
+            taken = {m['name'] for m in lst}
+            for i, m in enumerate(lst):
+                base = m['name'].rsplit('/', 1)[-1]
+                # never two members with the same full path (zip opens members by name)
+                if '/' in m['name'] and base not in taken:
+                    yield Case('batch', dict(inp, **{which: lst[:i] + [dict(m, name=base)] + lst[i + 1:]}), case.tags)
 
 
 CHECK = C13()
